@@ -280,21 +280,29 @@ Qed.
 Lemma bytes_eqb_refl l : bytes_eqb l l = true.
 Proof. apply bytes_eqb_eq. reflexivity. Qed.
 
-Lemma prop_of_model_filter codec level flush cs p :
-  let i := VL [VZ 1; VZ codec; VZ level; VZ flush; vLB cs; VZ p] in prop_C54 i (run_C54 i) = true.
-Proof.
-  cbn [prop_C54 run_C54]. rewrite as_LB_vLB. cbn [prop_C54]. rewrite ?as_LB_vLB. cbn. rewrite bytes_eqb_refl. reflexivity.
-Qed.
+Lemma is_prefix_firstn n (l : bytes) : is_prefix (firstn n l) l = true.
+Proof. apply is_prefix_spec. exists (skipn n l). symmetry. apply firstn_skipn. Qed.
 
-Lemma prop_of_model_handler cmd has_rule ae cenc has_cl level flush body :
-  let i := VL [VZ 2; VZ cmd; VZ has_rule; VB ae; VB cenc; VZ has_cl; VZ level; VZ flush; VB body] in
-  prop_C54 i (run_C54 i) = true.
+(* central theorem on typed operations: every decodable input is well-formed, there is no known-finding class *)
+Theorem prop_op_of_model : forall x, prop_op x (run_op x) = true.
 Proof.
-  cbn [prop_C54 run_C54]. unfold handler. rewrite bytes_eqb_refl.
-  destruct (has_token ae GZIP) eqn:G; destruct (has_token ae BR) eqn:B;
-  destruct (bytes_eqb cenc []) eqn:E1; destruct (bytes_eqb cenc IDENTITY) eqn:E2;
-  destruct (has_rule =? 0) eqn:R; destruct (has_cl =? 0) eqn:L;
-  destruct (cmd =? 0) eqn:C0; destruct (cmd =? 1) eqn:C1;
-  cbn; rewrite ?bytes_eqb_refl, ?G, ?B, ?E1, ?E2, ?R, ?L, ?C0, ?C1; cbn; try reflexivity;
-  try (apply Z.eqb_eq in C0; apply Z.eqb_eq in C1; lia).
+  intros [codec level flush cs p [|]|cmd rule ae cenc has_cl level flush body]; cbn [prop_op run_op].
+  - unfold err_delivered. rewrite is_prefix_firstn. reflexivity.
+  - rewrite bytes_eqb_refl. reflexivity.
+  - unfold handler, rule_matches. rewrite bytes_eqb_refl.
+    destruct (has_token ae GZIP) eqn:G; destruct (has_token ae BR) eqn:B;
+    destruct (bytes_eqb cenc []) eqn:E1; destruct (bytes_eqb cenc IDENTITY) eqn:E2;
+    destruct (rule =? 1) eqn:R1; destruct (rule =? 3) eqn:R3; destruct has_cl;
+    destruct (cmd =? 0) eqn:C0; destruct (cmd =? 1) eqn:C1;
+    cbn; rewrite ?bytes_eqb_refl, ?G, ?B, ?E1, ?E2, ?R1, ?R3, ?C0, ?C1; cbn; try reflexivity;
+    try (apply Z.eqb_eq in C0; apply Z.eqb_eq in C1; lia).
 Qed.
+Theorem prop_C54_of_model : forall i, wf_C54 i = true -> kf_C54 i = 0 -> prop_C54 i (run_C54 i) = true.
+Proof.
+  intros i Hwf _. unfold wf_C54 in Hwf. unfold prop_C54, run_C54. destruct (dec_C54 i) as [x|]; [|discriminate].
+  apply prop_op_of_model.
+Qed.
+Lemma C54_wf_example_lemma :
+  let i := VL [VZ 2; VZ 0; VZ 1; VB GZIP; VB []; VZ 1; VZ 6; VZ 64; VB [104; 101; 108; 108; 111]] in
+  wf_C54 i = true /\ run_C54 i = VL [VB GZIP; VZ 0; VZ 1; VB [104; 101; 108; 108; 111]; VZ 1].
+Proof. vm_compute. split; reflexivity. Qed.
